@@ -80,6 +80,15 @@ KINDS = {
 CONFIGURED_ONLY = {
     'List': dict(cls=ListGrader, cfg=lambda debug: dict(answers=['cat', 'dog'], subgraders=StringGrader(), debug=debug),
                  inputs=dict(rightA=['cat', 'dog'], rightB=['dog', 'cat'], wrong=['x', 'y'], malformed=['cat'], nontext='cat')),
+    # answers given as a TUPLE of lists / of dicts holding lists: the nested lists are the author's own objects
+    'ListTupleAnswers': dict(cls=ListGrader,
+                             cfg=lambda debug: dict(answers=(['cat', 'dog'], ['emu', {'expect': 'cat', 'grade_decimal': 0.5}]),
+                                                    subgraders=StringGrader(), debug=debug),
+                             inputs=dict(rightA=['cat', 'dog'], rightB=['cat', 'emu'], wrong=['x', 'y'], malformed=['cat'], nontext='cat')),
+    'SingleListTupleAnswers': dict(cls=SingleListGrader,
+                                   cfg=lambda debug: dict(answers=(['a', 'b'], {'expect': ['c', 'd'], 'grade_decimal': 0.5}),
+                                                          subgrader=StringGrader(), debug=debug),
+                                   inputs=dict(rightA='b,a', rightB='c,d', wrong='z,z', malformed='a,,b', nontext=5)),
     'Sum': dict(cls=SumGrader, cfg=lambda debug: dict(answers=dict(lower='1', upper='3', summand='n', summation_variable='n'),
                                                      debug=debug),
                 inputs=dict(rightA=['1', '3', 'n', 'n'], rightB=['3', '1', 'm', 'm'], wrong=['1', '4', 'n', 'n'],
@@ -103,10 +112,17 @@ def canon_author(x):
 
 
 def strip_inferred(msg):
+    """removes the lines 'Expect value inferred to be ...' (keeping a closing </pre> that shares the line)"""
     if not isinstance(msg, str):
         return msg
-    lines = [l for l in msg.replace('<br/>\n', '\n').split('\n') if not l.startswith('Expect value inferred to be')]
-    return '\n'.join(lines)
+    out = []
+    for l in msg.replace('<br/>\n', '\n').split('\n'):
+        if l.startswith('Expect value inferred to be'):
+            if l.endswith('</pre>') and out:
+                out[-1] = out[-1] + '</pre>'
+            continue
+        out.append(l)
+    return '\n'.join(out)
 
 
 def normalise(obs):
@@ -272,7 +288,7 @@ class System(object):
 
 class GraderHistory(BFSFamily):
     depth_cap = 4
-    workers = 8
+    level_sync = True
     timeout = 120.0
     max_states = 60000
 
@@ -434,6 +450,8 @@ class GraderHistory(BFSFamily):
 
     def state_key(self, s):
         snap = global_snapshot()
+        snap = dict(snap)
+        snap.pop('DEFAULT_FUNCTIONS_ids', None)      # object identities are only meaningful inside one process
         return (canon(s.g['g1'].__dict__), canon(s.g['g2'].__dict__), canon(snap),
                 tuple(sorted(map(str, s.possible['g1']))), tuple(sorted(map(str, s.possible['g2']))))
 
